@@ -53,6 +53,11 @@ def obligations(tier):
         nn = 2 * (w + 3) if name != "RSI" else 2 * (w + 2)     # RSI: three-way value branching per reading
         obs.append(Ob(f"live-long/{spec_name((kind, name, kw))}/tf=T2/n={nn}", dict(spec=[kind, name, kw], n=nn, tf="T2", fill=False, sched="family"), EQ,
                       weight=20 * nn, budget_s=240 if tier == "quick" else 3600, max_paths=20000 if tier == "quick" else 400000))
+    # candlestick patterns wrapped as indicators, with and without a lookback (they answer False before the 11th candle)
+    for pname in (("doji",) if tier == "quick" else ("doji", "dojistar", "hammer", "inv_hammer")):
+        for kw in (dict(lookback=2), dict(), dict(lookback=1), dict(lookback=4)):
+            obs.append(Ob(f"pattern-wrapper/{pname}{kw}/n=13", dict(spec=["amorph", pname, kw], n=13, tf=None, fill=False, sched="family"), EQ,
+                          weight=300, budget_s=240 if tier == "quick" else 3600, max_paths=20000 if tier == "quick" else 400000))
     # windows longer than the whole stream (the shipped defaults are 100 and 200 candles): every reading is computed
     # over 'all candles so far', in batch as well as live
     longw = [("ind", "HL", dict(period=7)), ("ind", "donchian", dict(period=7)), ("ind", "SMA", dict(period=7)), ("ind", "aroon", dict(period=7)),
